@@ -178,6 +178,8 @@ type issuer struct {
 	// anchorsUseKit: the trust-anchor source is itself built on the library - it PEM-encodes its CA with
 	// kit's crypto/pem on every call (and so touches whatever package-level state that encoder has)
 	anchorsUseKit bool
+	// onLog: called by the log sink handed to the SPIFFE object for every line it reports
+	onLog func(msg string)
 	// chainShape: what the issued chain looks like beyond the leaf. "plain" = [leaf, intermediate];
 	// "with-root" = the self-signed root is appended as well; "rollover" = the leaf is signed by a rolled-over
 	// intermediate key whose certificate is self-ISSUED (same name as the old intermediate, which signed it)
@@ -466,9 +468,41 @@ func TestCheck(t *testing.T) {
 }
 
 func newSpiffe(is *issuer, dir *string) *spiffe.SPIFFE {
-	log := logger.NewLogger("c19")
+	var log logger.Logger = logger.NewLogger("c19")
 	log.SetOutputLevel(logger.FatalLevel)
+	if is.onLog != nil {
+		log = probeLogger{Logger: log, on: is.onLog}
+	}
 	return spiffe.New(spiffe.Options{Log: log, RequestSVIDFn: is.request, WriteIdentityToFile: dir, TrustAnchors: anchors{is}})
+}
+
+// probeLogger is a log sink that does something whenever the component reports: the caller-supplied logger is
+// environment too (it may stamp its lines with the current identity, ship them over a connection
+// authenticated by the SVID source, or simply be slow).
+type probeLogger struct {
+	logger.Logger
+	on func(msg string)
+}
+
+func (l probeLogger) Info(a ...interface{}) { l.on(fmt.Sprint(a...)); l.Logger.Info(a...) }
+func (l probeLogger) Infof(f string, a ...interface{}) {
+	l.on(fmt.Sprintf(f, a...))
+	l.Logger.Infof(f, a...)
+}
+func (l probeLogger) Debug(a ...interface{}) { l.on(fmt.Sprint(a...)); l.Logger.Debug(a...) }
+func (l probeLogger) Debugf(f string, a ...interface{}) {
+	l.on(fmt.Sprintf(f, a...))
+	l.Logger.Debugf(f, a...)
+}
+func (l probeLogger) Warn(a ...interface{}) { l.on(fmt.Sprint(a...)); l.Logger.Warn(a...) }
+func (l probeLogger) Warnf(f string, a ...interface{}) {
+	l.on(fmt.Sprintf(f, a...))
+	l.Logger.Warnf(f, a...)
+}
+func (l probeLogger) Error(a ...interface{}) { l.on(fmt.Sprint(a...)); l.Logger.Error(a...) }
+func (l probeLogger) Errorf(f string, a ...interface{}) {
+	l.on(fmt.Sprintf(f, a...))
+	l.Logger.Errorf(f, a...)
 }
 
 // orderScenario runs one first-call order. bubble=false: real time (confirmation run).
@@ -726,8 +760,33 @@ func runRenewal(t *testing.T, idx int, rng *mon.RNG) {
 		if withDir {
 			dp = &target
 		}
+		// the log sink asks the SVID source for the current identity while it handles a line (only once an
+		// identity exists: a sink that waits for the first identity while the component reports that it is
+		// fetching it would be waiting for itself). Whatever the component holds while it reports, the source
+		// must answer.
+		var srcForLog x509svid.Source
+		var logProbeOn atomic.Bool
+		is.onLog = func(msg string) {
+			if !logProbeOn.Load() || is.probeOff.Load() || w.viol.Load() || srcForLog == nil {
+				return
+			}
+			got := make(chan error, 1)
+			go func() { _, err := srcForLog.GetX509SVID(); got <- err }()
+			q := mon.Quiesce()
+			select {
+			case err := <-got:
+				if err != nil {
+					w.violation("renewal/get-error-while-component-logs", fmt.Sprintf("GetX509SVID returned %v while the component was reporting %q", err, msg))
+				} else {
+					rec.Count("renewal.get_while_component_logs", 1)
+				}
+			default:
+				w.violation("renewal/get-blocked-while-component-logs", fmt.Sprintf("GetX509SVID does not return while the component is inside its log sink reporting %q (every goroutine parked; mutex-blocked: %d %v): a slow sink stalls every consumer, and a sink that uses the identity deadlocks the rotation", msg, q.MutexBlocked, q.MutexFrames))
+			}
+		}
 		s := newSpiffe(is, dp)
 		src := s.SVIDSource()
+		srcForLog = src
 		is.probe = func(k int, lastGood int64) {
 			if lastGood == 0 || w.viol.Load() {
 				return
@@ -762,6 +821,7 @@ func runRenewal(t *testing.T, idx int, rng *mon.RNG) {
 		if err := s.Ready(ctx); err != nil {
 			w.violation("renewal/ready-error", fmt.Sprintf("Ready returned %v", err))
 		}
+		logProbeOn.Store(idx%2 == 1)
 		// an independent consumer keeps asking for the SVID on its own schedule while the rotation runs
 		// (unsynchronised with the harness: the race detector sees its reads against the rotation's writes);
 		// what it is served never goes back to an older certificate
